@@ -683,8 +683,10 @@ impl<State, B> Call<State, B> {
             Phase::RecvBody => "RecvBody".to_string(),
         };
         format!(
-            "req[{}]|analyzed={}|phase={}|writer={:?}|reader={}|skip_check={}|stop_boundary={}",
+            "req[{}]|state_dbg={:?}|analyzed={}|phase={}|writer={:?}|reader={}|skip_check={}|stop_boundary={}",
             self.request.verif_fingerprint(),
+            // derived Debug: any field added to BodyState later shows up here without editing the hook
+            s,
             self.analyzed,
             phase,
             s.writer,
